@@ -109,6 +109,7 @@ def C07(rep, prog, tier):
         pent.check(rep, ex, cls, strict=False, extended=True)
     cls = _class_of(table, ("system-z", None))
     if cls:
+        sysz.check_partition_flow_plain(rep, ex, cls, "cond")
         sysz.rec(rep, ex, cls)
         sysz.entry_z(rep, ex, cls, strict=False, extended=True)
     for key, name, lex in ((("system-w", False), "rc2", False), (("system-w", True), "z3", False),
@@ -116,6 +117,8 @@ def C07(rep, prog, tier):
         cls = _class_of(table, key)
         if cls:
             be = mcsops.Backend(name, cls, lex=lex)
+            # the infinity layer the extended branch works with is the last layer of the partition preprocessing stored
+            mcsops.preprocess_flow(rep, ex, be, "LEX" if lex else "W")
             mcsops.w_entry(rep, ex, be, strict=False, extended=True, prefix="LEX" if lex else "W", n_objects=2 if lex else 1)
     part.check_all(rep, ex)
 
@@ -261,6 +264,7 @@ def C13(rep, prog, tier):
     ex = Explorer(prog, rep)
     table = wrappers.dispatch(rep, ex, report=False)
     wrappers.state_lifetime(rep, ex)
+    wrappers.init_preserves_state(rep, ex)
     wrappers.rows(rep, ex)
     wrappers.refuse(rep, ex, rules=("PREPROC.once",))
     rep.only = {"STATE.solver-per-query"}
@@ -359,6 +363,8 @@ def C05(rep, prog, tier):
         cinf.encoding_relation(rep, ex, cls)
         cinf.answer(rep, ex, cls)
         cinf.key_discipline(rep, ex, cls)
+        cinf.query_names(rep, ex, cls)
+        wrappers.init_preserves_state(rep, ex, only_cls=cls)
     wrappers.shortcut_guard(rep, ex)
     wrappers.shortcut_dominance(rep, ex)
     _encoding_and_enumeration(rep, ex)
@@ -446,6 +452,7 @@ def C06(rep, prog, tier):
     part.check_siblings(rep, ex)
     wrappers.refuse(rep, ex)
     wrappers.refuse_manager(rep, ex)
+    wrappers.init_preserves_state(rep, ex)
     wrappers.shortcut_dominance(rep, ex)
     diag.flags(rep, ex)
     diag.facts_sat(rep, ex)
